@@ -302,6 +302,30 @@ def check_construct_frames(spec, ctx):
     cds = CDSInterval([b[0] for b in bl], [b[1] for b in bl], STRAND[strand], [CDSFrame(f) for f in got], parent_or_seq_chunk_parent=chrom_parent(g))
     if total >= 3:
         ctx.eq("construct_frames_fed_back", codon_triples(cds.chromosome_codon_locations), codons)
+    # frames handed out for this location stay what they were while frames are generated for its neighbours: the same layout
+    # with the 5'-most block one or two bases longer / shorter, under every start offset (a family whose shifted block sizes
+    # collide - "first block 5, offset 0" and "first block 6, offset 1" are the same walk after the skip)
+    held = [(list(bl), off, CDSInterval.construct_frames_from_location(loc, CDSFrame(off)), exp)]
+    i5 = order[0]
+    for d_len in (-2, -1, 1, 2, 0):
+        nb = [list(b) for b in bl]
+        if strand == "-":
+            nb[i5][0] -= d_len
+        else:
+            nb[i5][1] += d_len
+        if nb[i5][1] - nb[i5][0] < 1 or nb[i5][0] < 0:
+            continue
+        if i5 + 1 < len(nb) and strand != "-" and nb[i5][1] > nb[i5 + 1][0]:
+            continue
+        if i5 > 0 and strand == "-" and nb[i5][0] < nb[i5 - 1][1]:
+            continue
+        for o2 in (0, 1, 2):
+            if nb[i5][1] - nb[i5][0] <= o2 and len(nb) > 1:
+                continue
+            held.append((nb, o2, CDSInterval.construct_frames_from_location(mkloc_blocks(nb, strand), CDSFrame(o2)), rm.frames_from_offset(nb, strand, o2)))
+    for nb, o2, fr, want in held:
+        ctx.eq("construct_frames_held_results_unchanged", [f.value for f in fr], want, extra={"blocks": nb, "offset": o2})
+    ctx.label("held_frames_%d" % len(held))
 
 
 @st.composite
